@@ -131,6 +131,9 @@ def run_replay_file(path, timeout=60):
 
 def confirm(ctx, replay):
     """Replay a candidate counterexample; only a reproduced one becomes a violation."""
+    if len(ctx.violations) >= 15:
+        ctx.suppressed = getattr(ctx, 'suppressed', 0) + 1       # enough reproduced violations: further candidates are only counted
+        return False
     path = write_replay(ctx.prop, replay)
     code, out = run_replay_file(path)
     if code == 1:
@@ -233,6 +236,8 @@ def finish(ctx, level='model_checking'):
         json.dump(ev, f, indent=1, ensure_ascii=True)
     for key, desc in ctx.known_hits:
         print(f'KNOWN-FINDING: property={ctx.prop} {key} {desc}')
+    if getattr(ctx, 'suppressed', 0):
+        print(f'note: {ctx.suppressed} further candidate counterexamples were not replayed (15 violations already reproduced)')
     for n in ctx.notes:
         print('note:', n)
     if ctx.violations:
